@@ -99,12 +99,14 @@ def dump_code(co, opc, version, api=None):
         if api is None:
             # iterating the same Bytecode object again (fully, and after an abandoned partial pass)
             # must yield the same stream: "iterating its instructions" is not a one-shot affair
+            # (a pass over 3.11+ code costs a findlabels() per instruction: only code objects of moderate size)
             first = [[x[0], x[1], x[3]] for x in ins]
-            again = [[i.offset, i.opcode, i.arg] for i in bc]
+            small = len(first) <= 400
+            again = [[i.offset, i.opcode, i.arg] for i in bc] if small else first
             it = iter(bc)
             next(it, None)
             next(it, None)
-            third = [[i.offset, i.opcode, i.arg] for i in bc]
+            third = [[i.offset, i.opcode, i.arg] for i in bc] if small else first
             if again != first or third != first:
                 ent["reiter"] = {"first": len(first), "second": len(again), "third": len(third),
                                  "third_first_offset": third[0][0] if third else None}
@@ -114,7 +116,7 @@ def dump_code(co, opc, version, api=None):
             ia, ib = iter(fresh), iter(fresh)
             la, lb = [], []
             step = 0
-            while True:
+            while small:
                 step += 1
                 moved = False
                 for it_, acc, n in ((ia, la, 1), (ib, lb, 2 if step % 2 else 1)):
@@ -125,17 +127,19 @@ def dump_code(co, opc, version, api=None):
                             moved = True
                 if not moved or step > 100000:
                     break
-            if la != first or lb != first:
+            if small and (la != first or lb != first):
                 ent["reiter"] = {"interleaved": True, "first": len(first), "a": len(la), "b": len(lb),
                                  "a_offsets": [x[0] for x in la[:6]], "b_offsets": [x[0] for x in lb[:6]]}
             fresh2 = Bytecode(co, opc)
-            outer = 0
-            for _x in fresh2:
-                outer += 1
+            outer = []
+            for _x in (fresh2 if small else []):
+                outer.append([_x.offset, _x.opcode, _x.arg])
+                if len(outer) >= 25:          # every inner iter() sets a whole pass up: keep the nested scan short
+                    break
                 for _y in fresh2:
                     break
-            if outer != len(first):
-                ent["reiter"] = {"nested": True, "first": len(first), "outer": outer}
+            if small and (outer != first[:len(outer)] or (len(outer) < 25 and len(outer) != len(first))):
+                ent["reiter"] = {"nested": True, "first": len(first), "outer": len(outer), "outer_offsets": [x[0] for x in outer[:6]]}
         ent["exc"] = None if bc.exception_entries is None else [[e.start, e.end, e.target, e.depth, bool(e.lasti)] for e in bc.exception_entries]
     except Exception as e:  # noqa
         ent["instrs_err"] = type(e).__name__ + ":" + str(e)[:100]
